@@ -1768,6 +1768,8 @@ def _dump_qcschema_output(f: TextIO, data: IOData) -> dict:
         raise DumpError("qcschema_output requires `return_result` field in extra['output'].", f)
     if "return_result" in data.extra["output"]:
         output_dict["return_result"] = data.extra["output"]["return_result"]
+    if "success" in data.extra["output"]:
+        output_dict["success"] = data.extra["output"]["success"]
     if "keywords" in data.extra["input"]:
         output_dict["keywords"] = data.extra["input"]["keywords"]
     if "extras" in data.extra["input"]:
